@@ -10,8 +10,13 @@ package network
 
 // ---- C14: activation depth -----------------------------------------------------------------------
 // Modular over the recursion: the recursive call is replaced by this very contract (partial correctness).
+// Depth as a function: with the traversal marks restored on every return ([marks], proved) and the link structure never written,
+// two queries with the same arguments give the same answer; depthF / depthErrF name that answer (assumed, listed as free_ensures).
+//@ ufunc depthF(Int, Int, Int) Int
+//@ ufunc depthErrF(Int, Int, Int) Bool
 //@ func (*NNode).Depth
 //@   props C14
+//@   free_ensures [function] result0 == depthF(n, d, maxDepthCap) && ((result1 != nil) <==> depthErrF(n, d, maxDepthCap))
 //@   requires n != nil
 //@   requires linksWF()
 //@   requires !n.visited
@@ -41,8 +46,13 @@ package network
 //@   ensures [nonneg] result1 == nil ==> result0 >= 0
 //@   ensures [capErr] len(n.controlNodes) == 0 && result1 != nil ==> maxDepthCap > 0 && result0 == maxDepthCap
 //@   ensures [capOk] len(n.controlNodes) == 0 && maxDepthCap > 0 && result1 == nil ==> result0 <= max(maxDepthCap, 1)
+//@   ensures [allOutputs] len(n.controlNodes) == 0 && len(n.allNodes) != len(n.inputs) + len(n.Outputs) && result1 == nil ==> (forall i :: 0 <= i && i < len(n.Outputs) ==> !depthErrF(n.Outputs[i], 0, maxDepthCap) && result0 >= depthF(n.Outputs[i], 0, maxDepthCap))
+//@   ensures [attained] len(n.controlNodes) == 0 && len(n.allNodes) != len(n.inputs) + len(n.Outputs) && result1 == nil && result0 != 0 ==> (exists i :: 0 <= i && i < len(n.Outputs) && result0 == depthF(n.Outputs[i], 0, maxDepthCap))
+//@   ensures [errOfAnOutput] len(n.controlNodes) == 0 && result1 != nil ==> (exists i :: 0 <= i && i < len(n.Outputs) && depthErrF(n.Outputs[i], 0, maxDepthCap) && result0 == depthF(n.Outputs[i], 0, maxDepthCap))
 //@   loop 1:
 //@     invariant 0 <= #idx + 1 && #idx < len(n.Outputs)
+//@     invariant [seen] forall i :: 0 <= i && i <= #idx ==> !depthErrF(n.Outputs[i], 0, maxDepthCap) && maxDepth >= depthF(n.Outputs[i], 0, maxDepthCap)
+//@     invariant [attained] maxDepth != 0 ==> (exists i :: 0 <= i && i <= #idx && maxDepth == depthF(n.Outputs[i], 0, maxDepthCap))
 //@     invariant forall m *NNode :: !m.visited
 //@     invariant maxDepth >= 0 && (maxDepthCap > 0 ==> maxDepth <= maxDepthCap)
 
